@@ -18,15 +18,16 @@ for mid in sys.argv[1:]:
         if not os.path.exists(mp): continue
         meta = json.load(open(mp)); patch = os.path.join(outd, "patch%d.diff" % n)
         cmd = re.split(r"\s{2,}\(|\s+#", meta["demo_cmd"])[0].strip()
+        cmd = re.sub(r"\(cd \$REPO && git apply [^)]*\) && ", "", cmd)   # the script applies / removes the patch itself
         res = {"at": time.strftime("%Y-%m-%d %H:%M:%S")}
         sh("git checkout -- . && git clean -fdq -e target", cwd=wt)
-        rc0, out0 = sh(cmd, timeout=3000)
+        rc0, out0 = sh(cmd, cwd=wt, timeout=3000)
         res["demo_without_patch_rc"] = rc0; res["demo_without_patch_tail"] = out0[-600:]
         sh("git checkout -- . ; rm -rf demo; git clean -fdq -e target", cwd=wt)
         rca, outa = sh("git apply %s" % patch, cwd=wt); res["patch_applies"] = rca == 0
         rcb, outb = sh("CARGO_TARGET_DIR=%s/target cargo build --workspace --offline 2>&1 | tail -3" % wt, cwd=wt); res["workspace_builds"] = "error" not in outb
         res["unit_tests_passed_failed"] = unit_tests(wt)
-        rc1, out1 = sh(cmd, timeout=3000)
+        rc1, out1 = sh(cmd, cwd=wt, timeout=3000)
         res["demo_with_patch_rc"] = rc1; res["demo_with_patch_tail"] = out1[-900:]
         sh("git checkout -- . ; rm -rf demo; git clean -fdq -e target", cwd=wt)
         ok = res["patch_applies"] and res["workspace_builds"] and res["unit_tests_passed_failed"] == (67, 0) and rc0 == 0 and rc1 != 0
